@@ -123,7 +123,7 @@ def describe(tier):
              '<= %d under each of the %d pairs of deviations; <= %d token-level units (default) / <= %d (K). Stylesheet '
              'alphabet (%d symbols): <= %d symbols and <= %d units under each of the %d stylesheet configurations without '
              'cache, up to <= %d symbols / <= %d units cache-assisted (units at the deepest bound for %s, one less elsewhere; fresh cache per '
-             'shard, failures re-run without cache), pairs at '
+             'shard, failures re-run without cache and reported in either case), one table session per stylesheet configuration (every built-in key, alone / with numbers / with the initial of each keyword, through one cache), pairs at '
              '<= %d. E3: edit distance <= %d around %d markup and %d stylesheet seeds. State = (string, configuration); '
              'transition = one appended symbol / unit / edit.' % (
                  len(SIGMA_M), b['chars_default'], b['chars_k'], sum(1 for k in K if k.startswith('m:')), len(DEV_M),
@@ -185,7 +185,36 @@ def shards(tier):
             out.append(dict(cfg=name, nbh=s, radius=b['radius'] if name == 'm:html' else 1))
     for s in SEEDS_S[:b['seeds']]:
         out.append(dict(cfg='s:css', nbh=s, radius=1, cached=True, minlen=0))
+    # one editor session per stylesheet configuration: every key of the built-in table, alone, with a number and with the initial
+    # of each of its keywords, all through ONE cache dict (neighbouring keys of one CSS property meet in it)
+    for name in K:
+        if name.startswith('s:'):
+            out.append(dict(cfg=name, table=True, cached=True))
     return out
+
+
+def table_session(cfg):
+    from emmet.config import Config
+    table = Config(copy.deepcopy(cfg)).snippets
+    # keyword initials per CSS property, collected over all the keys of that property: a key is also probed with the
+    # initials of its siblings' keywords (`ff:s`, then `ffa:s`)
+    initials = {}
+    for key, body in table.items():
+        if isinstance(body, str) and ':' in body and not body.lstrip().startswith('@'):
+            prop, values = body.split(':', 1)
+            for kw in values.split('|'):
+                kw = kw.strip()
+                if kw[:1].isalpha():
+                    initials.setdefault(prop.strip(), {}).setdefault(kw[0].lower(), kw[:2].lower())
+    for key in sorted(table):
+        body = table[key]
+        yield key
+        yield key + '10'
+        yield key + '-.5'
+        if isinstance(body, str) and ':' in body and not body.lstrip().startswith('@'):
+            for c, two in sorted(initials.get(body.split(':', 1)[0].strip(), {}).items()):
+                yield key + ':' + c
+                yield key + '-' + two
 
 
 ALPHA = {'M': SIGMA_M, 'UM': UNITS_M, 'S': SIGMA_S, 'US': UNITS_S}
@@ -228,7 +257,9 @@ def run_shard(shard, ctx, tier):
     base = ALLCFG[name]
     cached = shard.get('cached')
     cache = {} if cached else None
-    if 'nbh' in shard:
+    if shard.get('table'):
+        gen = table_session(base)
+    elif 'nbh' in shard:
         alpha = SIGMA_M if name.startswith('m:') else SIGMA_S
         gen = explore.neighbourhood(shard['nbh'], alpha, shard['radius'])
     else:
@@ -246,9 +277,14 @@ def run_shard(shard, ctx, tier):
         ctx.validated += 1
         kind, bad = run_one(w, cfg)
         if bad and cached:
+            with_cache = bad
             kind, bad = run_one(w, copy.deepcopy(base))
             ctx.evals += 1
             ctx.extra['cache_assisted_failures_rerun_without_cache'] += 1
+            if not bad:
+                # an internal error that only the cache kept by the caller brings about is an internal error all the same (the
+                # configuration includes the cache); it needs the earlier calls of this shard, so the runner replays the shard
+                ctx.violation(with_cache[0] + ':only-with-the-session-cache', dict(config=name, input=w, cached=True), with_cache[1])
         if kind == 'str':
             ctx.nontrivial += 1
         ctx.outcome((name[0], kind, len(w)))
@@ -261,6 +297,8 @@ def run_shard(shard, ctx, tier):
 
 
 def check_case(case):
+    if case.get('cached'):
+        return []           # needs the session: reproduced by the shard replay, never from the single call
     cfg = copy.deepcopy(ALLCFG[case['config']]) if isinstance(case['config'], str) else copy.deepcopy(case['config'])
     kind, bad = run_one(case['input'], cfg)
     return [bad] if bad else []
